@@ -202,7 +202,7 @@ def rule_elide(facts, rule="C18-ELIDE", only=None, floor=10):
     r = RuleResult(rule, "on every path where a type comparison decides to skip a cast insertion, equality of the full DataType (or "
                    "full type meta: every field) has been established", floor=floor)
     el = Elide(facts)
-    for rec in facts.all_fns(["glaredb_core"]):
+    for rec in facts.all_fns(["glaredb_core"], contains=("expr::cast", "CastExpr")):
         if only and not only(rec["id"]):
             continue
         s = str(rec["bbs"])
@@ -231,7 +231,7 @@ def rule_castbind(facts):
     can drift apart (e.g. one of them clamped)."""
     r = RuleResult("C18-CASTBIND", "a function bind that delegates to a cast kernel announces exactly the cast's target type as its return_type", floor=1)
     THRU = ("::clone", "::deref", "::as_ref", "::borrow", "::branch", "::unwrap")
-    for rec in facts.all_fns(["glaredb_core"]):
+    for rec in facts.all_fns(["glaredb_core"], contains="CastFunction"):
         if "CastFunction" not in str(rec["bbs"]) or "::functions::" not in rec["id"] or "::functions::cast::" in rec["id"] or "::tests::" in rec["id"]:
             continue
         fn = Fn(rec)
